@@ -389,6 +389,17 @@ def main():
     for pr in lp or []:
         v.report({"branch": "restart.lone_node", "kind": pr["kind"], "detail": "acknowledged-without-quorum" if pr.get("acknowledged_by_lone_node") else ""}, pr,
                  what="whole cluster killed, node 1 restarted alone and written to, then everything restarted: %s" % pr["detail"])
+    # a node restarted from its own snapshot crosses its snapshot threshold again, one entry per Ready
+    sbp, sbstats = None, {}
+    for attempt in range(2):
+        sbp, sbstats = clusterscen.snapshot_boundary(n=20, seed=seed + attempt)
+        if sbp is not None:
+            break
+    cov["snapshot_boundary"] = sbstats
+    if sbp is None:
+        print("NOTE: scenario snapshot-boundary inconclusive (%s)" % sbstats.get("inconclusive"), flush=True)
+    for pr in sbp or []:
+        v.report({"branch": "snapshot.boundary", "kind": pr["kind"], "detail": "restarted-from-snapshot" if pr.get("restarted_from_snapshot") else ""}, pr, what=pr["detail"])
     cov["failover_scenarios"] = {}
     for r in fres:
         cov["failover_scenarios"][r["name"]] = dict(r["stats"], inconclusive=r["inconclusive"])
